@@ -84,6 +84,16 @@ theorem next_ex {l : Lexer} (h0 : 0 ≤ l.pos) :
     h0 (fun _ _ a b c => ⟨a, b, c⟩)
   exact ⟨r, l', h, f⟩
 
+theorem peek_ex {l : Lexer} (h0 : 0 ≤ l.pos) :
+    ∃ r l', l.peek = some (r, l') ∧ (l'.len = l.len ∧ l'.mp = l.mp ∧ l'.tagStart = l.tagStart ∧ l'.bad = l.bad ∧ l'.tagBad = l.tagBad ∧ l'.input = l.input) ∧ l'.start = l.start ∧ l'.pos = l.pos ∧
+      ((l.len ≤ l.pos ∧ r = -1 ∧ l'.width = 0) ∨
+       (l.pos < l.len ∧ 0 ≤ r ∧ 1 ≤ l'.width ∧ l.pos + l'.width ≤ l.len ∧ (128 ≤ r ∨ l'.width = 1))) := by
+  obtain ⟨⟨r, l'⟩, h, f⟩ := peek_sat (l := l) (Q := fun x => (x.2.len = l.len ∧ x.2.mp = l.mp ∧ x.2.tagStart = l.tagStart ∧ x.2.bad = l.bad ∧ x.2.tagBad = l.tagBad ∧ x.2.input = l.input) ∧ x.2.start = l.start ∧ x.2.pos = l.pos ∧
+      ((l.len ≤ l.pos ∧ x.1 = -1 ∧ x.2.width = 0) ∨
+       (l.pos < l.len ∧ 0 ≤ x.1 ∧ 1 ≤ x.2.width ∧ l.pos + x.2.width ≤ l.len ∧ (128 ≤ x.1 ∨ x.2.width = 1))))
+    h0 (fun _ _ a b c d => ⟨a, b, c, d⟩)
+  exact ⟨r, l', h, f⟩
+
 /-- facts about a `next` whose result is already known (after `split` on `match h : l.next with`) -/
 theorem next_facts {l l' : Lexer} {r : Int} (h : l.next = some (r, l')) (h0 : 0 ≤ l.pos) :
     (l'.len = l.len ∧ l'.mp = l.mp ∧ l'.tagStart = l.tagStart ∧ l'.bad = l.bad ∧ l'.tagBad = l.tagBad ∧ l'.input = l.input) ∧ l'.start = l.start ∧ NextFacts l r l' := by
